@@ -258,7 +258,20 @@ def alto_trace(case):
     """run the real export + re-import on one case (see build_page; plus "minconf" in millionths)"""
     page, lines = build_page(case)
     rec = {"W": case["W"], "H": case["H"], "minconf": case["minconf"], "blocks": [], "outcome": "ok",
-           "obs": EMPTY_OBS, "imp_outcome": "none", "imp": [], "confs": []}
+           "obs": EMPTY_OBS, "imp_outcome": "none", "imp": [], "confs": [], "sure": []}
+    # sure[tag] (millionths, -1 = nothing known): a lower bound of the line's confidence that holds by construction - alignable
+    # posteriors with every character > 0.99 ("peaky", "window") or with label 0.8 against a strongest competitor 0.1 ("mid"):
+    # a line whose bound is at or above the requested threshold must not be dropped.
+    # Every second line carries a stale, low confidence from before the export (e.g. the value an earlier export stored when the
+    # logits were not attached yet): the export decides on the confidence it computes, not on what the object happened to hold.
+    tag = 0
+    for blk in case["blocks"]:
+        for ln in blk["lines"]:
+            tag += 1
+            lb = 990000 if ln["sit"] in ("peaky", "window") else (600000 if ln["sit"] == "mid" else -1)
+            rec["sure"].append(lb if all(c in CHARSET for c in ln["concrete"]) else -1)
+            if (tag + len(ln["concrete"])) % 2 == 0:
+                lines[tag - 1].transcription_confidence = 0.0123457
     for blk in case["blocks"]:
         rec["blocks"].append({"rect": list(blk["rect"]),
                               "lines": [{"text": tokens_of(ln["concrete"]), "sit": ln["sit"],
